@@ -302,6 +302,19 @@ impl Prop for C20 {
                             buf.set_len(total);
                             std::ptr::write_bytes(buf.as_mut_ptr() as *mut u8, PATTERN, total * size);
                         }
+                        if bi % 4 == 2 && !evs.is_empty() {
+                            // a rejected call must not have consumed its events: the same batch offered with a
+                            // null count / null action pointer first, then normally (compared with the Rust
+                            // framework, which never saw the rejected calls)
+                            let mut c0: usize = 4242;
+                            let r1 = unsafe { maybenot_on_events(inst, evs.as_ptr(), evs.len(), buf.as_mut_ptr().add(GUARD), std::ptr::null_mut()) };
+                            let r2 = unsafe { maybenot_on_events(inst, evs.as_ptr(), evs.len(), std::ptr::null_mut(), &mut c0) };
+                            if r1 as u32 != 4 || r2 as u32 != 4 || c0 != 4242 {
+                                return fail("null-pointer-not-reported", format!("batch {bi}: results {} {} count {c0}", r1 as u32, r2 as u32));
+                            }
+                            unsafe { std::ptr::write_bytes(buf.as_mut_ptr() as *mut u8, PATTERN, total * size) };
+                            hits.push("rejected_call_in_the_middle_of_a_run");
+                        }
                         let mut count: usize = usize::MAX - 7;
                         let evp = if evs.is_empty() { std::ptr::NonNull::<MaybenotEvent>::dangling().as_ptr() as *const _ } else { evs.as_ptr() };
                         let r = unsafe {
@@ -666,6 +679,7 @@ impl Prop for C20 {
     fn required_classes() -> Vec<&'static str> {
         vec![
             "asymmetric_flags_written",
+            "rejected_call_in_the_middle_of_a_run",
             "action_from_a_batch_longer_than_256",
             "two_or_more_actions",
             "cancel_written",
